@@ -134,6 +134,11 @@ Definition hook_monitor_failures (cs : list hcase) : list (nat * (nat * nat)) :=
 (** ** application cases *)
 Record ostate := { o_n : nstate; o_ctr : list (bytes * N) }.
 
+(** case files define each distinct observed state once (without the reward oracle) and attach the oracle *)
+Definition with_rew (s : nstate) (r : list (dkey * Z)) : nstate :=
+  {| n_bal := n_bal s; n_supply := n_supply s; n_vtok := n_vtok s; n_dels := n_dels s; n_ubds := n_ubds s;
+     n_reds := n_reds s; n_votes := n_votes s; n_props := n_props s; n_rew := r |}.
+
 Record envinfo := {
   e_staking : bytes; e_gov : bytes; e_topics : list bytes;     (* topics in the order of [all_kinds] *)
   e_bonded : bytes; e_notbonded : bytes; e_distr : bytes; e_feecoll : bytes; e_max : nat
